@@ -1,0 +1,41 @@
+//go:build verif && linux
+
+package fuse
+
+import (
+	"bazil.org/fuse/fs"
+
+	"github.com/jech/storrent/hash"
+)
+
+func verifHash(h hash.Hash) (a [20]byte) {
+	copy(a[:], h)
+	return
+}
+
+// VerifDir and VerifFile build the nodes that Lookup would return.
+func VerifDir(h hash.Hash, name string) fs.Node  { return directory{verifHash(h), name} }
+func VerifFile(h hash.Hash, name string) fs.Node { return file{verifHash(h), name} }
+
+// VerifNodeInfo describes a node returned by Lookup.
+func VerifNodeInfo(n fs.Node) (kind string, h hash.Hash, name string) {
+	switch n := n.(type) {
+	case root:
+		return "root", nil, ""
+	case directory:
+		return "dir", n.Hash(), n.name
+	case file:
+		return "file", n.Hash(), n.name
+	}
+	return "?", nil, ""
+}
+
+// VerifHandleRange returns the byte range behind an open file handle.
+func VerifHandleRange(h fs.Handle) (offset, length int64, ok bool) {
+	hd, isHandle := h.(*handle)
+	if !isHandle || hd.reader == nil {
+		return 0, 0, false
+	}
+	offset, length = hd.reader.VerifRange()
+	return offset, length, true
+}
